@@ -5,7 +5,8 @@ each with its OWN Issuer (or none) and its own signing key, and stand-alone
 signed protocol messages.  Real signatures / ciphertexts through the stand-in.
 
 element spec  E = dict(issuer=<raw Issuer text | None (no element)>, key=<harness key | None (unsigned)>,
-                       embed=<bool: KeyInfo carries the signer's certificate>, advice=[E ...], id=...)
+                       embed=<True: KeyInfo carries the signer's certificate | key name: that key's | None/False: none>,
+                       advice=[E ...], id=...)
 document      D = dict(resp=E (without advice), plain=[E], enc=[E])
 """
 import xml.etree.ElementTree as ET
@@ -30,8 +31,17 @@ def _strip_decl(text):
     return text
 
 
+def embedded_key(e):
+    """name of the harness key whose certificate the element's KeyInfo carries (None: no KeyInfo certificate)"""
+    emb = e.get("embed")
+    if not emb or not e.get("key"):
+        return None
+    return e["key"] if emb is True else emb
+
+
 def _sig_template(node_id, key, embed):
-    return sigver.pre_signature_part(node_id, env.cert_b64(key) if embed else None)
+    emb = embedded_key(dict(key=key, embed=embed))
+    return sigver.pre_signature_part(node_id, env.cert_b64(emb) if emb else None)
 
 
 def render_assertion(e):
